@@ -216,6 +216,36 @@ pub unsafe fn static_str(ptr: u64, len: u64) -> &'static str {
     std::str::from_utf8_unchecked(std::slice::from_raw_parts(ptr as *const u8, len as usize))
 }
 
+/// Log a work packet event: `a`, the packet's data address, and its type name.
+pub fn emit_packet<VM: crate::vm::VMBinding>(
+    kind: u32,
+    a: u64,
+    work: &dyn crate::scheduler::GCWork<VM>,
+) {
+    if !log_enabled() {
+        return;
+    }
+    let name = work.get_type_name();
+    emit(
+        kind,
+        a,
+        work as *const dyn crate::scheduler::GCWork<VM> as *const u8 as u64,
+        name.as_ptr() as u64,
+        name.len() as u64,
+    );
+}
+
+/// Log a push to a designated (per-worker) queue.
+pub fn emit_designated(ordinal: u64, name: &'static str) {
+    emit(
+        EV_ADD_DESIGNATED,
+        ordinal,
+        0,
+        name.as_ptr() as u64,
+        name.len() as u64,
+    );
+}
+
 // Event kinds -------------------------------------------------------------------------------
 
 /// Worker parked: a=ordinal, b=parked count after, c=worker count.
@@ -226,7 +256,7 @@ pub const EV_LAST_PARKED: u32 = 2;
 pub const EV_UNPARK: u32 = 3;
 /// Worker leaves `park_and_wait` with `WorkerShouldExit`: a=ordinal.
 pub const EV_EXIT_DECISION: u32 = 4;
-/// Goal requested: a=goal (0 Gc, 1 StopForFork, 2 Shutdown), b=newly requested?
+/// Goal requested: a=goal (0 Gc, 1 Shutdown, 2 StopForFork), b=newly requested?
 pub const EV_REQUEST: u32 = 5;
 /// Goal becomes current: a=goal.
 pub const EV_GOAL_START: u32 = 6;
@@ -574,4 +604,54 @@ pub mod compressor {
             self.0.release()
         }
     }
+}
+
+// ---------------------------------------------------------------------------------------------
+// Information about the running GC
+// ---------------------------------------------------------------------------------------------
+
+/// A snapshot of what kind of collection is in progress.  Only for labelling observations.
+#[derive(Clone, Copy, Debug, Default)]
+pub struct GcInfo {
+    /// A nursery collection of a generational plan.
+    pub nursery: bool,
+    /// 0 = not a concurrent plan / no pause, 1 = Full, 2 = InitialMark, 3 = FinalMark.
+    pub pause: u8,
+    /// Emergency collection.
+    pub emergency: bool,
+    /// User triggered.
+    pub user_triggered: bool,
+    /// The current GC may move objects.
+    pub may_move: bool,
+    /// Concurrent work (e.g. concurrent marking) is in progress.
+    pub concurrent_work_in_progress: bool,
+    /// The plan is generational.
+    pub generational: bool,
+}
+
+/// Query the plan about the current GC.
+pub fn gc_info<VM: VMBinding>(mmtk: &crate::MMTK<VM>) -> GcInfo {
+    let plan = mmtk.get_plan();
+    let (pause, cwip) = match plan.concurrent() {
+        Some(c) => (
+            // `Pause` is `repr(u8)`: Full = 1, InitialMark = 2, FinalMark = 3.
+            c.current_pause().map(|p| p as u8).unwrap_or(0),
+            c.concurrent_work_in_progress(),
+        ),
+        None => (0, false),
+    };
+    GcInfo {
+        nursery: crate::plan::is_nursery_gc(plan),
+        pause,
+        emergency: mmtk.is_emergency_collection(),
+        user_triggered: mmtk.is_user_triggered_collection(),
+        may_move: plan.current_gc_may_move_object(),
+        concurrent_work_in_progress: cwip,
+        generational: plan.generational().is_some(),
+    }
+}
+
+/// Wake parked GC workers as a spurious condition-variable wake-up would.
+pub fn spurious_wakeup<VM: VMBinding>(mmtk: &crate::MMTK<VM>, all: bool) {
+    mmtk.scheduler.verif_spurious_wakeup(all);
 }
